@@ -1,4 +1,4 @@
-CONSTANTS BODY = "A"  TMIN = 0  TMAX = 31  CMIN = 0  CMAX = 31  BLO = 0  BHI = 31
+CONSTANTS BODY = "A"  TNEG = 0  TMAX = 31  CNEG = 0  CMAX = 31  BNEG = 0  BHI = 31
           MAXELEMS = 8  MAXPEERS = 6  REVERSED = TRUE  NEARMAX = TRUE  WRAPPED = TRUE
 SPECIFICATION Spec
 INVARIANTS C15_Range
